@@ -105,3 +105,76 @@ def mergeFiles (a b : Bytes) : Option Bytes :=
   | _, _ => none
 
 end PQ
+
+namespace PQ
+open PQ.Thrift
+
+private def addI (d : Nat) : TVal → TVal
+  | .int ty n => .int ty (n + d)
+  | v => v
+
+private def mapKeys (ks : List Nat) (f : TVal → TVal) (fs : List (Nat × TVal)) : List (Nat × TVal) :=
+  fs.map fun (k, v) => if ks.contains k then (k, f v) else (k, v)
+
+/-- insert field `id` (ascending field order), replacing an existing one -/
+private def putField (id : Nat) (v : TVal) : List (Nat × TVal) → List (Nat × TVal)
+  | [] => [(id, v)]
+  | (k, w) :: rest => if k = id then (id, v) :: rest else if k > id then (id, v) :: (k, w) :: rest else (k, w) :: putField id v rest
+
+private def mdOf (ch : TVal) : Option (List (Nat × TVal) × List (Nat × TVal)) :=
+  match ch with
+  | .struct cfs => match cfs.lookup 3 with
+    | some (.struct ms) => some (cfs, ms)
+    | _ => none
+  | _ => none
+
+/-- `dictFile kind rg col file`: a dictionary page (`kind = 0`: one PLAIN entry of 4 bytes) or an index page
+(`kind = 1`, empty) is inserted at the head of column chunk `col` of row group `rg` of an UNCOMPRESSED file, the way
+parquet-mr lays out a chunk whose writer fell back from dictionary to PLAIN encoding before the first data page:
+`dictionary_page_offset` / `index_page_offset` = the chunk's start, `data_page_offset` after the page, the chunk's and the
+row group's sizes include it, every later offset is shifted.  The data pages stay PLAIN v1 pages.  Protocol glue for
+C18 (a file that *has* a dictionary or index page uses a feature the reader does not implement); not part of any theorem. -/
+def dictFile (kind rg col : Nat) (file : Bytes) : Option Bytes :=
+  match footerOf file with
+  | none => none
+  | some (fs, fstart) =>
+    match fs.lookup 4 with
+    | some (.list e rgs) =>
+      let target : Option Nat := do
+        let r ← rgs[rg]?
+        let chs ← (match r with | .struct rfs => (match rfs.lookup 1 with | some (.list _ chs) => some chs | _ => none) | _ => none)
+        let ch ← chs[col]?
+        let (_, ms) ← mdOf ch
+        match ms.lookup 9 with
+        | some (.int _ n) => some n.toNat
+        | _ => none
+      match target with
+      | none => none
+      | some start =>
+        let hdr : TVal := if kind = 0
+          then .struct [(1, .int 5 2), (2, .int 5 4), (3, .int 5 4), (7, .struct [(1, .int 5 1), (2, .int 5 0)])]
+          else .struct [(1, .int 5 1), (2, .int 5 0), (3, .int 5 0), (6, .struct [])]
+        let page : Bytes := hdr.enc ++ (if kind = 0 then [7, 0, 0, 0] else [])
+        let L := page.length
+        let editChunk (i j : Nat) (ch : TVal) : TVal :=
+          match mdOf ch with
+          | none => ch
+          | some (cfs, ms) =>
+            if i = rg ∧ j = col then
+              let ms := mapKeys [6, 7, 9] (addI L) ms
+              let ms := putField (if kind = 0 then 11 else 10) (.int 6 start) ms
+              .struct (cfs.map fun (k, v) => if k = 3 then (k, .struct ms) else (k, v))
+            else if i > rg ∨ (i = rg ∧ j > col) then
+              let ms := mapKeys [9, 10, 11] (addI L) ms
+              .struct ((mapKeys [2] (addI L) cfs).map fun (k, v) => if k = 3 then (k, .struct ms) else (k, v))
+            else ch
+        let rgs' := rgs.zipIdx.map fun (r, i) => match r with
+          | .struct rfs => .struct (rfs.map fun (k, v) =>
+              if k = 1 then (k, match v with | .list e2 chs => .list e2 (chs.zipIdx.map fun (ch, j) => editChunk i j ch) | v => v)
+              else if k = 2 ∧ i = rg then (k, addI L v) else (k, v))
+          | v => v
+        let footer := (TVal.struct (fs.map fun (k, v) => if k = 4 then (k, .list e rgs') else (k, v))).enc
+        some (file.take start ++ page ++ (file.drop start).take (fstart - start) ++ footer ++ le32 footer.length ++ [80, 65, 82, 49])
+    | _ => none
+
+end PQ
